@@ -702,3 +702,33 @@ CHECKS["C06"] = {
         "things handle() does with a parsed request",
     ],
 }
+
+# C01 / C02 / C06 at message granularity on the MIR of handle(): the stream is a nondeterministic stub (symbolic framing)
+C01_MIR_MODELS = [
+    "MIR symbolic execution (smt/mirsym.py, smt/c01_mir.py); the stream and the callees are nondeterministic stubs:",
+    "BufRead::read_until(0, buf) -> a complete NUL-terminated message, a partial message followed by end of stream, end of stream, or an "
+    "I/O error (one successor path each; it appends to buf); slice::get / Vec::pop / deref on that buffer -> its last byte is NUL exactly "
+    "for a complete message",
+    "serde_json::from_slice::<Request> -> Ok(a request tied to the message it was read from) or Err (free); str::rfind('.') -> Some(pos) "
+    "or None (free); str index / String::from -> the prefix value",
+    "VarlinkService::call -> recorded (message, interface argument), may mark the call upgraded (free), Ok or Err (free); "
+    "Call::reply_interface_not_found, VarlinkService::call_upgraded -> recorded, Ok or Err (free); BufReader::buffer -> a marker value",
+    "Result::map_err / Try::branch / FromResidual -> the `?` contract; is_err / is_ok / is_some / is_none / Vec::clear -> definitions; "
+    "string comparisons, HashMap::contains_key, serde_json::Error::is_* (only reached by modified code) -> free booleans",
+]
+_h_mir = [H("c01_handle_mir_3", engine="smt", script="c01_mir.py", timeout=(900, 1800),
+            functions=["<varlink::VarlinkService as ConnectionHandler>::handle (rustc MIR)"],
+            symbolic="the outcome of every read (message / partial / end / error), whether each message parses, whether its method has a "
+                     "dot, what the dispatcher returns and whether it upgrades; entry with or without an earlier upgrade",
+            bounds="runs of at most 3 reads (51 returning paths)", stubs=C01_MIR_MODELS),
+          H("c01_handle_mir_5", engine="smt", script="c01_mir.py", tiers=("thorough",), timeout=(900, 3600),
+            functions=["<varlink::VarlinkService as ConnectionHandler>::handle (rustc MIR)"],
+            symbolic="as c01_handle_mir_3", bounds="runs of at most 5 reads", stubs=C01_MIR_MODELS)]
+for _p in ("C01", "C02", "C06"):
+    CHECKS[_p]["harnesses"] = CHECKS[_p]["harnesses"] + _h_mir
+    CHECKS[_p]["assumptions"] = CHECKS[_p]["assumptions"] + [
+        "c01_handle_mir_*: (z3, on the MIR of handle with the stream as a stub) symbolic framing at message granularity - every "
+        "complete message is parsed without its terminator and served exactly once, in order, before the next read; nothing is read "
+        "after a failing call, an unparsable message or an upgrade, and such a failure is returned; a partial message is returned as "
+        "the tail unparsed, end of stream gives an empty tail, an upgrade returns the buffered remainder and the interface"]
+
